@@ -15,6 +15,7 @@ Proved for every N (what holds):
 import EPV.Lemmas.HeatCyl
 import EPV.Gen.Hutchens2N2
 import EPV.Tactics
+import EPV.Lemmas.Bridge.HeatTac
 
 set_option linter.all false
 
@@ -108,8 +109,7 @@ theorem hutchens2N2_eq (p : Hutchens2N2.P) (r z : ℝ) :
           (fun n => if n = 0 then p.I0b0 else p.I0b1) := by
   rw [hutchens2_eq_partial_sums, h2Static_real]
   simp only [epv_tree, epv_leaf, Finset.sum_range_succ, Finset.sum_range_zero, h2Inc_real, h2lam]
-  norm_num
-  ring
+  heat_num_eq
 
 theorem hutchens2N2_leaves : Hutchens2N2.okLeaves = [0] := rfl
 
